@@ -257,6 +257,14 @@ fn fuzz_stage(ctx: &mut Ctx, exe: &Path) {
     let workers: u64 = std::env::var("VP_FUZZ_WORKERS").ok().and_then(|s| s.parse().ok()).unwrap_or(tier.pick(8, 16));
     let runs: u64 = std::env::var("VP_FUZZ_RUNS").ok().and_then(|s| s.parse().ok()).unwrap_or(tier.pick(20_000, 300_000));
     let budget = std::time::Duration::from_secs(tier.pick(600, 5400));
+    // libFuzzer measures memory with getrusage's peak RSS, and on Linux a
+    // spawned process starts with the peak of the process that spawned it: the
+    // limit has to sit above this process's own high-water mark
+    let own_peak_mb: u64 = std::fs::read_to_string("/proc/self/status")
+        .ok()
+        .and_then(|t| t.lines().find(|l| l.starts_with("VmHWM:")).and_then(|l| l.split_whitespace().nth(1).and_then(|n| n.parse::<u64>().ok())))
+        .map_or(0, |kb| kb / 1024);
+    let rss_limit = own_peak_mb + 6000;
     let start = Instant::now();
     let mut children = Vec::new();
     for w in 0..workers {
@@ -269,7 +277,7 @@ fn fuzz_stage(ctx: &mut Ctx, exe: &Path) {
             .arg("-max_len=400")
             .arg("-len_control=0")
             .arg("-timeout=30")
-            .arg("-rss_limit_mb=6000")
+            .arg(format!("-rss_limit_mb={}", rss_limit))
             .arg("-reload=1")
             .arg(format!("-dict={}", verif_dir().join("harness/fuzz/dict.txt").display()))
             .arg(format!("-artifact_prefix={}/w{}-", art.display(), w))
